@@ -581,5 +581,5 @@ def describe(tier):
                      'cancellation is offered while a client waits in acquire, and '
                      'anywhere for clients whose with-statement covers the hold',
                      'compat layer (DESIGN.md section 2)'],
-        time_cap_s=None if tier == 'quick' else 3000,
+        time_cap_s=None if tier == 'quick' else 2400,
     )
